@@ -69,8 +69,17 @@ impl Space {
 
 impl ObjectId {
     pub fn next() -> Self {
+        #[cfg(fontations_verif)]
+        crate::types::verif_hooks::sched_point("graph::ObjectId::next");
         ObjectId(OBJECT_COUNTER.fetch_add(1, std::sync::atomic::Ordering::Relaxed))
     }
+}
+
+/// Advances the process-wide object counter by `n`, as if `n` objects had
+/// been compiled earlier in this process.
+#[cfg(fontations_verif)]
+pub fn verif_bump_object_counter(n: u64) {
+    OBJECT_COUNTER.fetch_add(n, std::sync::atomic::Ordering::Relaxed);
 }
 
 #[derive(Debug, Default)]
